@@ -25,3 +25,49 @@ def run(case, ctx):
     for s in shape:
         ctx.add("step_shapes", s)
     ctx.sample(case)
+
+
+def finish(ctx):
+    """extra stratum (shard 0): the repository's own test suite under the same walker
+    (vlib/plug/pytest_walker.py): hand-written fixtures and test data the generators do not draw."""
+    if ctx.shard != 0:
+        return
+    import json
+    import os
+    import subprocess
+    import sys
+    import tempfile
+    import gfapy
+    root = os.path.dirname(os.path.dirname(os.path.abspath(gfapy.__file__)))
+    here = os.path.dirname(os.path.dirname(os.path.dirname(os.path.abspath(__file__))))
+    fd, out = tempfile.mkstemp(prefix="verif-walker-", suffix=".json")
+    os.close(fd)
+    env = dict(os.environ, PYTHONPATH=os.pathsep.join([root, os.path.join(here, ".deps"), here]),
+               VERIF_WALKER_OUT=out, PYTHONHASHSEED="0")
+    try:
+        p = subprocess.run([sys.executable, "-B", "-m", "pytest", "-q", "-x", "-p", "no:cacheprovider",
+                            "-p", "vlib.plug.pytest_walker", "tests",
+                            "--deselect", "tests/test_api_rgfa.py::TestAPIrGfa::test_stable_sequence_names"],
+                           cwd=root, env=env, capture_output=True, text=True, timeout=900)
+        with open(out) as f:
+            rec = json.load(f)
+    except subprocess.TimeoutExpired:
+        ctx.inconc("test suite under the walker: watchdog (900 s)")
+        return
+    except Exception as e:
+        ctx.inconc("test suite under the walker did not report: %r" % (e,))
+        return
+    finally:
+        if os.path.exists(out):
+            os.unlink(out)
+    ctx.count("testsuite_tests", rec.get("tests", 0))
+    ctx.count("testsuite_walker_runs", rec.get("hook_counts", {}).get("walker_runs", 0))
+    for test, vs in rec.get("violations", {}).items():
+        if "test_api_extensions" in test:
+            # user-defined record types (M, T): their reference fields are declared by the
+            # extension and are not part of the invariants' catalogue
+            ctx.count("testsuite_extension_records_ignored", len(vs))
+            continue
+        for prop, key, detail in vs:
+            ctx.violation("testsuite/" + key, "%s: %s" % (test, detail), case={"test": test},
+                          prop=prop if prop in ("C02", "C09") else "C02")
